@@ -6,6 +6,7 @@ length search, 10/11/12 hex decode half/quarter/min table, 13/14 hex encode half
 15 simd parse hex, 16 simd convert hex, 17 low-memory buckets, 18 pearson double table,
 19 dist-length table, 20/21 dist-qratios table / double table, 30.. body backend, 40.. aggregation backend
 """
+import os
 import core
 
 CONFIGS = {}
@@ -60,8 +61,9 @@ CFG_ALL = ["default", "nosimd", "embedded", "lowmem", "decq", "decmin", "static-
 
 
 # ---- model flags derived from the CURRENT Cargo.toml feature graph (tie for C07) ----
-def cargo_feature_graph(path="/repo/fast-tlsh/Cargo.toml"):
+def cargo_feature_graph(path=None):
     import re
+    path = path or os.path.join(core.REPO, "fast-tlsh", "Cargo.toml")
     txt = open(path).read()
     m = re.search(r"^\[features\]\s*$(.*?)^\[", txt, flags=re.S | re.M)
     body = m.group(1) if m else ""
